@@ -236,7 +236,9 @@ pub fn check_frequency(code: &[u8], interval: usize) -> Result<Vec<(String, u64,
     let within = |stage: &str, work: u64, polls: u64, loops: u64| -> Result<(), Verdict> {
         let k = interval as u64;
         let lo = work / k;
-        let hi = (work + k - 1) / k + loops;
+        // extra polls are a don't-care up to a factor of two (a loop may legitimately poll at its head and its tail);
+        // polling on (nearly) every iteration when an interval was requested is not
+        let hi = 2 * ((work + k - 1) / k) + loops + 2;
         if polls < lo || polls > hi {
             return Err(Verdict {
                 key: format!("frequency:{stage}:{}", if polls < lo { "too-few" } else { "too-many" }),
@@ -292,7 +294,7 @@ pub fn check_frequency(code: &[u8], interval: usize) -> Result<Vec<(String, u64,
         let copy_polls: u64 = copies.iter().map(|w| (w + interval as u64 - 1) / interval as u64).sum();
         let k = interval as u64;
         let lo = work / k + copies.iter().map(|w| w / k).sum::<u64>();
-        let hi = (work + k - 1) / k + 1 + copy_polls + copies.len() as u64;
+        let hi = 2 * ((work + k - 1) / k + copy_polls) + 2 + copies.len() as u64;
         report.push(("vm".into(), work, vm_polls));
         if vm_polls < lo || vm_polls > hi {
             return Err(Verdict {
